@@ -177,6 +177,36 @@ pub fn run(tier: &str, seed: u64, out: &Path) -> i32 {
         }
         push(&mut jobs, &mut names, "literal", &format!("lit{}", k), src, cfg);
     }
+    // I. white space that is not ASCII, where byte offsets are computed from line and character counts
+    for k in 0..(if thorough { 6000 } else { 1000 }) {
+        let src = blank_program(&mut rng);
+        let mut cfg: Vec<(String, String)> = vec![];
+        for (key, val) in [("wrap_comments", "true"), ("normalize_comments", "true"), ("hard_tabs", "true"), ("error_on_line_overflow", "true"), ("newline_style", "Windows")] {
+            if rng.chance(1, 3) {
+                cfg.push((key.to_string(), val.to_string()));
+            }
+        }
+        if rng.chance(1, 3) {
+            cfg.push(("max_width".into(), rng.pick(&[20usize, 30, 60]).to_string()));
+        }
+        push(&mut jobs, &mut names, "blank", &format!("blank{}", k), src, cfg);
+    }
+    // J. regression inputs of repaired crashes (corpus/c16_regress), default options and two option sets
+    {
+        let dir = if Path::new("corpus/c16_regress").exists() { std::path::PathBuf::from("corpus/c16_regress") } else { std::path::PathBuf::from("/verif/corpus/c16_regress") };
+        if let Ok(rd) = std::fs::read_dir(&dir) {
+            let mut fs: Vec<_> = rd.flatten().map(|e| e.path()).collect();
+            fs.sort();
+            for f in fs {
+                if let Ok(src) = std::fs::read_to_string(&f) {
+                    let name = f.file_name().unwrap().to_string_lossy().into_owned();
+                    push(&mut jobs, &mut names, "regress", &name, src.clone(), vec![]);
+                    push(&mut jobs, &mut names, "regress", &name, src.clone(), vec![("wrap_comments".into(), "true".into()), ("normalize_comments".into(), "true".into())]);
+                    push(&mut jobs, &mut names, "regress", &name, src, vec![("max_width".into(), "20".into()), ("hard_tabs".into(), "true".into())]);
+                }
+            }
+        }
+    }
     // H. boundary widths (boundary.rs): the items of the fixtures at the widths where one of their lines is exactly as
     //    wide as the page (thorough: at every width 20..200), half of them under one more option
     {
